@@ -137,13 +137,17 @@ Definition neighbours (eps : Qc) (cells : list cell) (c : nat) : list nat :=
   end.
 
 (* Some v: the entry is the Python float v;  None: it is a GEKKO variable in [0,1] *)
-Definition model_a (eps t : Qc) (cells : list cell) (m : module) (c : nat) : option Qc :=
+Definition model_a_with (nb : list nat) (t : Qc) (cells : list cell) (m : module) (c : nat) : option Qc :=
   let a := get_a cells m c in
-  let nb := neighbours eps cells c in
   if mfixed m
      || (Qcltb t a && forallb (fun d => Qcltb t (get_a cells m d)) nb)
      || (Qcltb a (1 - t) && forallb (fun d => Qcltb (get_a cells m d) (1 - t)) nb)
   then Some a else None.
+Definition model_a (eps t : Qc) (cells : list cell) (m : module) (c : nat) : option Qc :=
+  model_a_with (neighbours eps cells c) t cells m c.
+(* the neighbours of every cell, tabulated (used by the comparators; SystemFacts.model_a_tab) *)
+Definition nb_table (eps : Qc) (cells : list cell) : list (list nat) :=
+  map (fun ic => neighbours eps cells (fst ic)) (indexed_from 0 cells).
 
 (* Module(f"{m}_{r}", hard=True) with the r-th rectangle; centre = that rectangle's centre *)
 Definition fake_modules (m : module) : list module :=
